@@ -42,15 +42,12 @@ fn integerise(model: &mut FileModel) {
     if model.format.family() == "transfac" {
         for rec in model.records.iter_mut() {
             for c in rec.cells.iter_mut() {
-                if let Some(dot) = c.find('.') {
-                    c.truncate(dot);
-                    if c.is_empty() {
-                        c.push('0');
-                    }
-                    // TRANSFAC cells are f32: integers above 2^24 are not all representable
-                    if c.parse::<u64>().map(|v| v > (1 << 24)).unwrap_or(true) {
-                        *c = "16777216".to_string();
-                    }
+                if !c.bytes().all(|b| b.is_ascii_digit()) {
+                    // any other spelling (decimal point, exponent): keep the integer part of its value,
+                    // capped at 2^24 (TRANSFAC cells are f32: larger integers are not all representable)
+                    let v: f64 = c.parse().unwrap_or(0.0);
+                    let v = v.trunc().max(0.0).min((1u64 << 24) as f64) as u64;
+                    *c = v.to_string();
                 }
             }
         }
